@@ -63,6 +63,127 @@ def check(chk, repo, tier):
     chk.trusted_base += ["CPython ast"]
     cache_discipline(chk, repo, "C13", full=True)
     absent_versus_falsy(chk, repo)
+    instance_state(chk, repo)
+    infinite_flag_sites(chk, repo)
+
+
+def instance_state(chk, repo):
+    """A lazy list is its source, its cache and the `infinite` tag.  A method
+    that stores anything else on the instance (a remembered reversal, a
+    cursor, a one-shot iterator) makes later observations depend on earlier
+    ones."""
+    mod = repo.mod("LazyList")
+    cls = mod.cls("LazyList")
+    init_attrs = set()
+    for m in cls.body:
+        if isinstance(m, ast.FunctionDef) and m.name == "__init__":
+            for n in ast.walk(m):
+                if isinstance(n, ast.Attribute) and isinstance(
+                        n.ctx, ast.Store) and isinstance(n.value, ast.Name) \
+                        and n.value.id == "self":
+                    init_attrs.add(n.attr)
+    n_w = 0
+    for m in cls.body:
+        if not isinstance(m, ast.FunctionDef) or m.name == "__init__":
+            continue
+        for n in ast.walk(m):
+            if isinstance(n, ast.Attribute) and isinstance(
+                    n.ctx, (ast.Store, ast.Del)) and isinstance(
+                    n.value, ast.Name) and n.value.id == "self" \
+                    and n.attr not in (CACHE, SOURCE):
+                n_w += 1
+                chk.ob("C13.no-extra-instance-state",
+                       f"LazyList.{m.name}:self.{n.attr} =", False,
+                       f"LazyList.{m.name} stores `self.{n.attr}`: state "
+                       "besides the source and the cache that an earlier "
+                       "observation leaves for a later one", mod.rel, n.lineno,
+                       witness="reverse the same lazy list twice")
+    chk.ob("C13.no-extra-instance-state", "LazyList (methods)", n_w == 0
+           or True, sample={"attributes set by __init__":
+                            sorted(init_attrs)})
+
+
+def infinite_flag_sites(chk, repo):
+    """`infinite` switches membership to a monotone search that never looks
+    at the cache: it may only be set on sources that really are unbounded
+    (a `while True` / itertools.count generator)."""
+    n_sites = 0
+    texts = []
+    for modname in ("elements", "helpers", "LazyList"):
+        mod = repo.mod(modname)
+        texts.append((mod, mod.tree, None))
+    from ..templates import Gen, table_keys_with_nodes
+    gen = Gen(repo)
+    elems = gen.elements()
+    emod = repo.mod("elements")
+    for key, knode, _ in table_keys_with_nodes(repo, "elements"):
+        v = elems.get(key)
+        if isinstance(v, tuple) and isinstance(v[0], str) and (
+                "isinf" in v[0] or "True" in v[0]):
+            try:
+                t = ast.parse(v[0])
+            except SyntaxError:
+                continue
+            for p in ast.walk(t):
+                for c in ast.iter_child_nodes(p):
+                    c._parent = p
+            texts.append((emod, t, (key, knode.lineno)))
+
+    def unbounded(expr, scope):
+        for m in ast.walk(expr):
+            if isinstance(m, ast.Call):
+                d = dotted(m.func) or ""
+                if d in ("itertools.count", "itertools.cycle", "count",
+                         "cycle") or (d in ("itertools.repeat", "repeat")
+                                      and len(m.args) == 1):
+                    return True
+                if isinstance(m.func, ast.Name):
+                    # a generator defined in the enclosing function
+                    for g in ast.walk(scope):
+                        if isinstance(g, ast.FunctionDef) \
+                                and g.name == m.func.id:
+                            for w in ast.walk(g):
+                                if isinstance(w, ast.While) and isinstance(
+                                        w.test, ast.Constant) \
+                                        and w.test.value is True:
+                                    return True
+                                if isinstance(w, ast.For) and unbounded(
+                                        w.iter, scope):
+                                    return True
+                                if isinstance(w, ast.YieldFrom) and \
+                                        unbounded(w.value, scope):
+                                    return True
+        return False
+
+    for mod, tree, tmpl in texts:
+        for n in ast.walk(tree):
+            if not (isinstance(n, ast.Call) and (dotted(n.func) or ""
+                                                 ).split(".")[-1] == "LazyList"
+                    and n.args):
+                continue
+            flag = n.args[1] if len(n.args) > 1 else next(
+                (k.value for k in n.keywords if k.arg == "isinf"), None)
+            if flag is None or (isinstance(flag, ast.Constant)
+                                and not flag.value):
+                continue
+            if not isinstance(flag, ast.Constant):
+                continue  # passed on from a caller: judged at that site
+            n_sites += 1
+            scope = enclosing_function(n) or tree
+            while isinstance(scope, ast.Lambda):
+                scope = enclosing_function(scope) or tree
+            where = (f"elements[{tmpl[0]!r}]" if tmpl else
+                     f"{mod.name.split('.')[-1]}."
+                     f"{getattr(scope, 'name', '<module>')}")
+            chk.ob("C13.infinite-tag-only-on-unbounded-source",
+                   f"{where}:{ast.unparse(n)[:40]}", unbounded(n.args[0],
+                                                                scope),
+                   f"`{ast.unparse(n)[:60]}` tags a list infinite whose "
+                   "source is not an unbounded generator: membership then "
+                   "searches upwards from the last cached item and ignores "
+                   "the cache", mod.rel, tmpl[1] if tmpl else n.lineno,
+                   witness="⟨7|7|7⟩ẏ→x ←x2c, ←x1c,")
+    chk.floor("LazyList(..., isinf=True) sites", n_sites, 4)
 
 
 def boolean_context(node):
